@@ -37,6 +37,7 @@ SPECS = {
     "C07": dict(units=[machine("TestC07", 640, 10000, steps=30)], floor=0.50, rule=None, assumptions=MACHINE_ASSUME),
     "C09": dict(units=[machine("TestC09", 320, 5000, steps=36)], floor=0.50, rule=None, assumptions=MACHINE_ASSUME),
     "C10": dict(units=[machine("TestC10", 400, 6000, steps=36)], floor=0.40, rule=None, assumptions=MACHINE_ASSUME),
+    "C19": dict(units=[machine("TestC19", 240, 4000), dict(test="TestC19Config", kind="plain", quick=1, thorough=1)], floor=0.40, rule=None, assumptions=MACHINE_ASSUME + ["only the newest upgrade descriptor can be executed end to end; for earlier descriptors only the store bookkeeping is checked", "the pre-upgrade binary is emulated by the same code with the newest descriptor removed from the exported app.Upgrades list"]),
     "C15": dict(units=[machine("TestC15", 640, 12000, steps=30)], floor=0.50, rule=None, assumptions=MACHINE_ASSUME),
 }
 
